@@ -233,6 +233,11 @@ class Sym:
 
     # ---- arithmetic
     def _bin(self, other, op, refl=False):
+        if isinstance(other, str):
+            if self.kind == "str" and op == "+":
+                a, b = (other, self) if refl else (self, other)
+                return Sym(z3.Concat(to_z3(a), to_z3(b)))
+            return NotImplemented
         if isinstance(other, (Sym, int, float, fractions.Fraction, bool)) or z3.is_expr(other):
             pass
         else:
